@@ -114,8 +114,8 @@ def run(repo: Repo, rep, tier: str):
     rep.exhaustive = True
     rep.assume("prices are compared, copied, min/max-ed only (checked: any arithmetic makes the branch non-constant on a cell and forks on witnessed samples)")
     rep.assume("position hook / exchange ledgers / candle storage are abstract event sinks in the matching-loop runs")
-    check_split(repo, rep)
-    check_match_loop(repo, rep, tier)
+    rep.guarded(check_split, repo, rep)
+    rep.guarded(check_match_loop, repo, rep, tier)
 
 
 CLAIM = {
